@@ -253,6 +253,11 @@ pub struct Gen {
     /// (each defined at most once); set from the thread's edge-id mode
     pub edge_ids: bool,
     pub edge_used: Vec<u32>,
+    /// result ids of the OpExtInstImport instructions emitted so far, and the last extended
+    /// instruction number used (edge mode: OpExtInst prefers imported sets and repeats numbers,
+    /// so that the same number meets both GLSL.std.450 and OpenCL.std back to back)
+    pub ext_imports: Vec<u32>,
+    pub last_ext_number: Option<u32>,
 }
 
 thread_local! {
@@ -283,6 +288,8 @@ impl Gen {
             long_strings: false,
             edge_ids: EDGE_IDS.with(|c| c.get()),
             edge_used: vec![],
+            ext_imports: vec![],
+            last_ext_number: None,
         }
     }
     /// fresh result id; in edge-id mode occasionally an extreme value not used before
@@ -304,6 +311,11 @@ impl Gen {
     }
     /// Updates the type context with an emitted plan (ids defined once).
     pub fn track(&mut self, p: &Plan) {
+        if p.opname == "ExtInstImport" {
+            if let Some(r) = p.rid {
+                self.ext_imports.push(r);
+            }
+        }
         self.tc.track(p.opname, p.rtype, p.rid, p.operand_words());
         if let Some(r) = p.rid {
             if self.tc.map.contains_key(&r) && !self.typed_ids.contains(&r) {
@@ -697,6 +709,25 @@ impl Gen {
             }
         } else if !self.gen_operand_list(cs, &rest, rtype, &mut ops, &mut body, &mut sh, 0) {
             return None;
+        }
+        if self.edge_ids && gi.opname == "ExtInstImport" && cs.below(4) != 0 {
+            // mostly the two recognised sets
+            let name = if cs.bool() { "GLSL.std.450" } else { "OpenCL.std" };
+            ops = vec![Operand::LiteralString(name.to_string())];
+            body.truncate(1);
+            body.extend(str_words(name));
+        }
+        if self.edge_ids && gi.opname == "ExtInst" && ops.len() >= 2 && body.len() >= 4 {
+            if !self.ext_imports.is_empty() && cs.below(4) != 0 {
+                let set = self.ext_imports[cs.below(self.ext_imports.len())];
+                ops[0] = Operand::IdRef(set);
+                body[2] = set;
+            }
+            if let (Some(n), true) = (self.last_ext_number, cs.bool()) {
+                ops[1] = Operand::LiteralExtInstInteger(n);
+                body[3] = n;
+            }
+            self.last_ext_number = Some(body[3]);
         }
         if body.len() + 1 > 0xffff {
             return None;
